@@ -1364,6 +1364,25 @@ class TaskScenario(ScenarioData):
                 self._lastBookedSlot = self.currentSlotIdx
                 self._lastBookedResources.append(resource)
 
+        if effort > 0 and len(self._lastBookedResources) > 1:
+            # Team members work the same instants: only the part of the slot that was free
+            # for all of them counts. Trim every member's booking to that common part (what a
+            # member had free before it is idle time, its used-seconds counter keeps covering it).
+            slot_idx = self.currentSlotIdx if self.currentSlotIdx is not None else 0
+            booked: list[tuple[Any, int, float]] = []
+            for member in self._lastBookedResources:
+                usage = member.data[self.scenarioIdx].slotTaskUsage.get(slot_idx, [])
+                for i, (task, secs) in enumerate(usage):
+                    if task == self.property:
+                        booked.append((member, i, secs))
+            if booked:
+                common = min(secs for _m, _i, secs in booked)
+                total_effort_this_slot = 0.0
+                for member, i, secs in booked:
+                    member.data[self.scenarioIdx].slotTaskUsage[slot_idx][i] = (self.property, common)
+                    member_eff = member.get("efficiency", self.scenarioIdx) or 1.0
+                    total_effort_this_slot = max(total_effort_this_slot, (common / 3600.0) * member_eff)
+
         if booked_any:
             # For effort-based tasks, set start date on first booking
             if effort > 0 and self.doneEffort == 0:
